@@ -51,13 +51,14 @@ func poolCalls() []poolCall {
 const c17Lib = `
 // the request rules: a returns req, b fails when the request says so and
 // otherwise returns the response object's field
-const zzReqText = "rule \"a\" salience 9\nbegin\n ev(\"a.s\")\n x = req\n ev(\"a.e\")\n return x\nend\nrule \"b\" salience 5\nbegin\n ev(\"b.s\")\n if fail {\n  y = one / zero\n }\n ev(\"b.e\")\n return resp\nend\n"
+const zzReqText = "rule \"a\" salience 9\nbegin\n ev(\"a.s\")\n x = req\n ev(\"a.e\")\n if quiet {\n  x = 0\n } else {\n  return x\n }\nend\nrule \"b\" salience 5\nbegin\n ev(\"b.s\")\n if fail {\n  y = one / zero\n }\n ev(\"b.e\")\n if quiet {\n  y = 0\n } else {\n  return resp\n }\nend\n"
 
 func zzReqPool(min, max int64) *GenginePool {
 	apis := zzApis()
 	apis["one"] = int64(1)
 	apis["zero"] = int64(0)
 	apis["fail"] = false
+	apis["quiet"] = false
 	gp, e := NewGenginePool(min, max, SortModel, zzReqText, apis)
 	zzMust(e, "pool construction")
 	return gp
@@ -339,9 +340,11 @@ func %s() {
 	_, _ = names, stag
 	var prev map[string]interface{}
 	var prevReq int64
-	for round := 0; round < 2; round++ {
+	prevLen := 0
+	for round := 0; round < 3; round++ {
 		req, fail := vnd.Int64("req"), vnd.Bool("fail")
-		data := map[string]interface{}{"req": req, "resp": int64(100 + round), "fail": fail}
+		// the middle request returns nothing: its (empty) result map must stay empty afterwards
+		data := map[string]interface{}{"req": req, "resp": int64(100 + round), "fail": fail, "quiet": round == 1}
 		err, res := %s
 		vnd.Event("ret")
 		vnd.RequireJoined("ret")
@@ -358,21 +361,25 @@ func %s() {
 			vnd.Assert(ok && x == int64(100+round), "the result holds the value computed from this request")
 		}
 		vnd.Assert(len(res) <= 2, "nothing foreign in the result")
+		if round == 1 && %v {
+			vnd.Assert(len(res) == 0, "a request whose rules return nothing gets an empty result")
+		}
 		if prev != nil {
 			// the map handed to the previous caller is never modified afterwards
+			vnd.Assert(len(prev) == prevLen, "a returned result map is not modified by later requests")
 			if v, has := prev["a"]; has {
 				x, _ := v.(int64)
 				vnd.Assert(x == prevReq, "a returned result map is not modified by later requests")
 			}
 		}
-		prev, prevReq = res, req
+		prev, prevReq, prevLen = res, req, len(res)
 		vnd.Quiesce()
 		// L3: nothing of the request stays behind, the apis stay
 		for i := range gp.rbSlice {
-			for _, k := range []string{"req", "resp", "fail"} {
+			for _, k := range []string{"req", "resp", "fail", "quiet"} {
 				_, e := gp.rbSlice[i].Dc.Get(k)
-				if k == "fail" {
-					continue // "fail" is also an api name of this pool (see assumptions)
+				if k == "fail" || k == "quiet" {
+					continue // also api names of this pool (see assumptions)
 				}
 				vnd.Assert(e != nil, "once the call has returned its data is no longer visible on any instance")
 			}
@@ -382,10 +389,44 @@ func %s() {
 	}
 	vnd.Reach("executed")
 }
-`, pc.name, name, pc.call)
+`, pc.name, name, pc.call, pc.name != "ExecuteRulesWithSpecifiedEM")
 		fam.Instances = append(fam.Instances, Instance{Func: name, Stratum: "L3L4", Desc: pc.name + ": clean-up and fresh result", Expect: []string{"executed"}})
 	}
 	b.WriteString(`
+// a local assigned on one path of an earlier request is not there for a later request on the other path
+func L5_local_does_not_leak() {
+	apis := zzApis()
+	for _, call := range []string{"Execute", "ExecuteConcurrent", "ExecuteSelectedRules"} {
+		gp, e := NewGenginePool(1, 2, SortModel, "rule \"q\" begin\n if vip {\n  quota = req\n }\n return quota\nend\n", apis)
+		zzMust(e, "pool construction")
+		for round := 0; round < 4; round++ {
+			vip := round%2 == 0
+			req := vnd.Int64("req")
+			data := map[string]interface{}{"req": req, "vip": vip}
+			var err error
+			var res map[string]interface{}
+			switch call {
+			case "Execute":
+				err, res = gp.Execute(data, true)
+			case "ExecuteConcurrent":
+				err, res = gp.ExecuteConcurrent(data)
+			default:
+				err, res = gp.ExecuteSelectedRules(data, []string{"q"})
+			}
+			vnd.Quiesce()
+			v, has := res["q"]
+			if vip {
+				x, ok := v.(int64)
+				vnd.Assert(err == nil && has && ok && x == req, "the assigning request gets its own value")
+			} else {
+				vnd.Assert(err != nil, "a request that did not assign the local finds it undefined")
+				vnd.Assert(!has, "and gets no value computed from another request's data")
+			}
+		}
+	}
+	vnd.Reach("executed")
+}
+
 // two overlapping requests: the first blocks inside rule a while the second runs completely
 func O_overlap() {
 	gp := zzReqPool(1, 2)
@@ -424,7 +465,8 @@ func O_overlap() {
 	vnd.Reach("executed")
 }
 `)
-	fam.Instances = append(fam.Instances, Instance{Func: "O_overlap", Stratum: "overlap", Desc: "two overlapping requests", Expect: []string{"executed"}})
+	fam.Instances = append(fam.Instances, Instance{Func: "O_overlap", Stratum: "overlap", Desc: "two overlapping requests", Expect: []string{"executed"}},
+		Instance{Func: "L5_local_does_not_leak", Stratum: "L5", Desc: "rule locals of an earlier request are invisible to later requests", Expect: []string{"executed"}})
 	finishPoolFamily(fam, "C06", b.String())
 	// O_overlap needs sync
 	for p, src := range fam.Files {
